@@ -2,7 +2,7 @@
 
 use std::sync::atomic::{AtomicBool, Ordering};
 
-use anyhow::{anyhow, Context, Result};
+use anyhow::{Context, Result};
 
 static SIGNALED: AtomicBool = AtomicBool::new(false);
 static CRITICAL: AtomicBool = AtomicBool::new(false);
@@ -41,7 +41,9 @@ where
         // is allowed to continue after this critical section.
         SIGNALED.store(false, Ordering::SeqCst);
         if result.is_ok() {
-            Err(anyhow!("interrupted by user"))
+            // The critical section ran to completion, so its effects stand. The
+            // interrupt that was deferred by the signal handler is honored now.
+            std::process::exit(SIGINT_CODE)
         } else {
             result.context("interrupted by user")
         }
